@@ -90,14 +90,14 @@ def check(ctx):
             roles = discover_roles(ctx, f, call)
             check_key_tuple(ctx, f, call, body, arg, roles)
         check_sorted_is_written(ctx, f, call)
-    check_provenance(ctx)
+    ctx.run(check_provenance)
     ctx.not_decided.append("nothing of C08's statement is left undecided except the behaviour of list.sort itself (trusted: stable, uses only the comparator)")
     # mechanisms this property rests on (see shared.py): a change there is reported here as well
     from . import shared as _sh
 
-    _sh.path_tokenisers(ctx)
-    _sh.graph_loader(ctx)
-    _sh.cli_layer(ctx, "gaftools.cli.sort")
+    ctx.run(_sh.path_tokenisers)
+    ctx.run(_sh.graph_loader)
+    ctx.run(_sh.cli_layer, "gaftools.cli.sort")
 
 
 # ---------------------------------------------------------------------------------------------
